@@ -50,6 +50,13 @@ def candidates(rng, n):
     did += 1
     cands.append(enum(did, [variant("Mb"), variant("MB"), variant("Marked", aci=1), variant("Nothing", "tuple", [field("u8")], ser=[""])], style="none"))
     did += 1
+    # two spellings of one variant that differ only in case, under every combination of the enum-level and variant-level flag
+    for eaci in (False, True):
+        for order in (0, 1):
+            vs = [variant("Fmt", ser=["json"], ts="JSON", aci=0), variant("Other", ser=["yaml"], ts="YAML"), variant("Third", ser=["toml"], ts="TOML", aci=1),
+                  variant("Plain", ser=["ini", "INI."])]
+            cands.append(enum(did, vs[::-1] if order else vs, aci=eaci))
+            did += 1
     for k in range(n):
         cands.append(SC.names_def(rng, did, allow_prefix=False))
         did += 1
